@@ -139,3 +139,39 @@ Theorem sdk_complete_wrt_ref_step :
                     sdk_route mac t ia K now i pk = (ALocal, pk')).
 Proof. intros. apply sdk_step_complete; assumption. Qed.
 Print Assumptions sdk_complete_wrt_ref_step.
+
+(** ... and whole runs: whenever the reference network delivers a packet (no PEERING flag,
+    segments of at least two hop fields), the simulator reaches the verdict "deliver" in the
+    same AS, having crossed exactly the same links, with the identical packet. *)
+Theorem sdk_complete_wrt_ref :
+  forall (key : Type) (mac : key -> N -> N -> N -> N -> N -> N) fuel (t : topology key) now,
+    wf_topo t = true ->
+    forall ia i pk rtr x rpk,
+      lens_two (p_lens (k_path pk)) -> sum_nat (p_lens (k_path pk)) = length (p_hops (k_path pk)) ->
+      uses_peering (k_path pk) = false ->
+      ref_sim mac fuel t now ia i pk = (rtr, RDelivered x, rpk) ->
+      exists tr, sdk_sim mac fuel t now ia i pk = (tr, EndVerdict, rpk)
+                 /\ fwd_of_steps tr = rtr
+                 /\ exists pre il, tr = pre ++ [mkStep x il ALocal].
+Proof. intros. eapply ref_sim_complete; eauto. Qed.
+Print Assumptions sdk_complete_wrt_ref.
+
+(** The scope of [sdk_sound_wrt_ref] in closed form: in every topology without peering links,
+    for every packet without PEERING flag that is not injected from inside an AS directly at
+    a segment change, the whole run is in scope -- so there the simulator never forwards or
+    delivers what the reference network does not. *)
+Theorem sdk_sound_wrt_ref_without_peering :
+  forall (key : Type) (mac : key -> N -> N -> N -> N -> N -> N) fuel (t : topology key) now,
+    wf_topo t = true -> no_peer_links t = true ->
+    forall ia i pk tr e pk',
+      path_ok (k_path pk) -> uses_peering (k_path pk) = false -> start_scope i (k_path pk) = true ->
+      sdk_sim mac fuel t now ia i pk = (tr, e, pk') ->
+      forall rtr rend rpk, ref_sim mac fuel t now ia i pk = (rtr, rend, rpk) ->
+      (exists more, rtr = fwd_of_steps tr ++ more)
+      /\ (forall pre s, tr = pre ++ [s] -> s_act s = ALocal ->
+            rtr = fwd_of_steps tr /\ rend = RDelivered (s_ia s) /\ rpk = pk').
+Proof.
+  intros key mac fuel t now W NP ia i pk tr e pk' P Sp St H rtr rend rpk R.
+  eapply sdk_sim_sound; eauto. apply run_scope_global; assumption.
+Qed.
+Print Assumptions sdk_sound_wrt_ref_without_peering.
